@@ -200,7 +200,10 @@ def model(case):
     if cls is None:
         return None
     r = cls(_seed(case["seed"]))
-    st = r.getstate()[0]
+    try:
+        st = r._generator.bit_generator.state  # the generator's own state, independent of getstate()
+    except AttributeError:
+        st = r.getstate()[0]
     toks = [str(st["state"]["state"]), str(st["state"]["inc"]), str(int(st["has_uint32"])), str(int(st["uinteger"])), str(len(case["ops"]))]
     for op in case["ops"]:
         t = op[0]
